@@ -714,6 +714,13 @@ func (t *tr) callStmt(at ast.Node, call *ast.CallExpr, lhs []ast.Expr, define bo
 	}
 
 	hasErr := ci.hasErr
+	if hasErr == unknown && ci.kind == kLib && len(lhs) > 0 {
+		// same-named methods with different result lists: only those with as many results as there are
+		// left-hand sides can be meant
+		if se, ok := unparen(call.Fun).(*ast.SelectorExpr); ok {
+			hasErr = methodErrByArity(se.Sel.Name, len(call.Args), len(lhs))
+		}
+	}
 	if hasErr == unknown {
 		// a leaf whose signature no parsed source gives: the left-hand side decides
 		t.nUnkSig++
@@ -771,7 +778,16 @@ func (t *tr) callStmt(at ast.Node, call *ast.CallExpr, lhs []ast.Expr, define bo
 		}
 		t.verdictVars[bv.id] = true
 	}
-	return t.emitCall(site, call, ci, ev, bv)
+	out := t.emitCall(site, call, ci, ev, bv)
+	// a result that is not bound to a variable (`_`, or no assignment at all) is tested by nobody: the same as
+	// testing it and doing nothing
+	if ev.name == "_" {
+		out = seq(out, &S{op: "IfErr", site: site, n1: ev.id, h: "Drop"})
+	}
+	if bv != nil && bv.name == "_" {
+		out = seq(out, &S{op: "CheckVerdict", site: site, n1: bv.id, h: "VIgnore"})
+	}
+	return out
 }
 
 // type expression of a result of fn, as seen from the current file (only what receiverType can use)
